@@ -495,6 +495,12 @@ impl SuccessfulAuthentication {
         match access_control.on_connect(request).await {
             Access::Allow => {
                 let guard = OnDisconnectGuard::for_access_control(access_control.clone(), request);
+                #[cfg(feature = "verif-hooks")]
+                iroh_base::verif_hooks::point_async(
+                    "relay:handshake:after_on_connect",
+                    &request.connection_id().to_string(),
+                )
+                .await;
                 self.accept(io).await?;
                 Ok(guard)
             }
